@@ -561,6 +561,7 @@ def plan(ctx):
     fam("U-J", "sum")              # a 1100-state chain under 4 numberings
     if ctx.thorough:
         fam("U-H", "sum")
+        fam("U-SC", "sum")
     fam("U-K", "sum-gens", stride=1 if ctx.thorough else 4, offset=ctx.seed)
     fam("U-N", "sum")              # near chains: order of three almost-equal successors must not matter
     if ctx.thorough:
